@@ -72,9 +72,11 @@ Definition buf4_set (b : buf4) (i v : N) : outcome buf4 :=
 Record dec64 := mk64 { d64_buf : buf4; d64_next : N; d64_target : target }.
 Definition b64_new : dec64 := mk64 (0, 0, 0, 0) 0 (Ok []).
 
-(* Decoder::push.  Result: the new state and what push returned
-   (None = Ok(()), Some e = Err(e)); Panic when the real code panics. *)
-Definition b64_push (d : dec64) (ch : N) : outcome (dec64 * option N) :=
+(* The decoding step of Decoder::push (the whole of `push` at the pinned
+   commit; `push_char` once pending/C18-base64-decoder.diff is applied).
+   Result: the new state and what was returned (None = Ok(()), Some e =
+   Err(e)); Panic when the real code panics. *)
+Definition b64_push_char (d : dec64) (ch : N) : outcome (dec64 * option N) :=
   if d64_next d =? b64_push_eof then
     Ok (mk64 (d64_buf d) (d64_next d) (Err E_TRAILING), Some E_TRAILING)
   else
@@ -110,40 +112,69 @@ Definition b64_finalize (d : dec64) : outcome (list N) :=
   | other => other
   end.
 
+(* Decoder::push.  T1 reads from the source whether `push` is the decoding
+   step itself (b64_push_sticky = false: IllegalChar, in-group TrailingInput and
+   ShortBuf errors are returned but not recorded) or the wrapper
+       if let Err(err) = self.target { return Err(err); }
+       let res = self.push_char(ch);
+       if let Err(err) = res { self.target = Err(err); }
+       res
+   that makes every error final (b64_push_sticky = true). *)
+Definition b64_push_with (sticky : bool) (d : dec64) (ch : N) : outcome (dec64 * option N) :=
+  if sticky then
+    match d64_target d with
+    | Err e => Ok (d, Some e)
+    | _ =>
+        match b64_push_char d ch with
+        | Ok (d', Some e) => Ok (mk64 (d64_buf d') (d64_next d') (Err e), Some e)
+        | other => other
+        end
+    end
+  else b64_push_char d ch.
+Definition b64_push := b64_push_with b64_push_sticky.
+
 (* decode: for ch in s.chars() { decoder.push(ch)?; } decoder.finalize() *)
-Fixpoint b64_decode_from (d : dec64) (s : list N) : outcome (list N) :=
+Fixpoint b64_decode_from_with (sticky : bool) (d : dec64) (s : list N) : outcome (list N) :=
   match s with
   | [] => b64_finalize d
   | ch :: r =>
-      match b64_push d ch with
-      | Ok (d', None) => b64_decode_from d' r
+      match b64_push_with sticky d ch with
+      | Ok (d', None) => b64_decode_from_with sticky d' r
       | Ok (_, Some e) => Err e
       | Err e => Err e
       | Panic p => Panic p
       | OutOfFuel => OutOfFuel
       end
   end.
-Definition b64_decode (s : list N) : outcome (list N) := b64_decode_from b64_new s.
+Definition b64_decode (s : list N) : outcome (list N) :=
+  b64_decode_from_with b64_push_sticky b64_new s.
 
 (* the per-push API used without stopping at errors: every push result is
    recorded; stops only at a panic *)
-Fixpoint b64_run (d : dec64) (s : list N) : list (option N) * outcome dec64 :=
+Fixpoint b64_run_with (sticky : bool) (d : dec64) (s : list N) : list (option N) * outcome dec64 :=
   match s with
   | [] => ([], Ok d)
   | ch :: r =>
-      match b64_push d ch with
-      | Ok (d', res) => let '(tr, fin) := b64_run d' r in (res :: tr, fin)
+      match b64_push_with sticky d ch with
+      | Ok (d', res) => let '(tr, fin) := b64_run_with sticky d' r in (res :: tr, fin)
       | Err e => ([], Err e)
       | Panic p => ([], Panic p)
       | OutOfFuel => ([], OutOfFuel)
       end
   end.
-Definition b64_push_all (s : list N) : list (option N) * outcome (list N) :=
-  let '(tr, fin) := b64_run b64_new s in
+Definition b64_push_all_with (sticky : bool) (s : list N) : list (option N) * outcome (list N) :=
+  let '(tr, fin) := b64_run_with sticky b64_new s in
   (tr, match fin with
        | Ok d => match b64_finalize d with
                  | Ok l => Ok l | Err e => Err e | Panic p => Panic p | OutOfFuel => OutOfFuel end
        | Err e => Panic 0 | Panic p => Panic p | OutOfFuel => OutOfFuel end).
+Definition b64_push_all := b64_push_all_with b64_push_sticky.
+
+(* the two variants by name: the pinned code and the repaired code *)
+Definition b64_decode_from := b64_decode_from_with false.
+Definition b64_run := b64_run_with false.
+Definition b64_push_all_cur := b64_push_all_with false.
+Definition b64_push_all_fix := b64_push_all_with true.
 
 (* scanner side *)
 Inductive esym := Sym (ch : N) | EndOfToken.
